@@ -1,8 +1,18 @@
 (** C17 — parallel, push-based and spilling execution equal simple sequential execution: the
-    property theorems (statements only; proofs are in Par/Proofs*.v).  Pinned by props/C17.statements. *)
+    property theorems (statements only; proofs are in Par/Proofs*.v).  Pinned by props/C17.statements.
+
+    Conventions of the statements: [cmp] is a row comparison ([Lt] = sorts first), [leb cmp a b] is
+    "a may come before b"; [P] is the domain on which [cmp] is a total preorder (for the code's
+    comparators: rows whose key columns exist and hold NULL or values of one kind per column —
+    theorems [cmp_rows_m_preorder] / [cmp_rows_s_preorder]); [isort cmp] is the stable sort
+    ([slice::sort_by]); [k_cross_ties] is the class of finding C17-K1. *)
 From Coq Require Export List Permutation Sorted ZArith Bool.
 From GV Require Export Par.Rows Par.Merge Par.Morsel Par.Accum Par.Push Par.ExtSort Par.Sched.
-From GV Require Import Par.Proofs.
+From GV Require Import Par.Proofs Par.ProofsAccum Par.ProofsMorsel Par.ProofsPush Par.ProofsSched Par.ProofsExt
+     Par.ProofsCmp Par.ProofsC17.
+Import ListNotations.
+
+(** ** 1. k-way merge of sorted runs (merge_sorted_runs, merge_sorted_chunks, ExternalSort::k_way_merge) *)
 
 Theorem kway_merge_spec : forall (A : Type) (cmp : A -> A -> comparison) (P : A -> Prop),
   (forall a b, P a -> P b -> leb cmp a b = true \/ leb cmp b a = true) ->
@@ -12,3 +22,292 @@ Theorem kway_merge_spec : forall (A : Type) (cmp : A -> A -> comparison) (P : A 
   /\ Permutation (merge_sorted_runs cmp runs) (concat runs).
 Proof. exact kway_merge_spec_l. Qed.
 Print Assumptions kway_merge_spec.
+
+Theorem kway_merge_single : forall (A : Type) (cmp : A -> A -> comparison) (r : list A),
+  merge_sorted_runs cmp (r :: nil) = r /\ merge_sorted_runs cmp nil = nil.
+Proof. exact kway_merge_single_l. Qed.
+Print Assumptions kway_merge_single.
+
+(** every run comes out in its own order (the rows tagged with run index i, in output order, are run i) *)
+Theorem kway_merge_run_order : forall (A : Type) (cmp : A -> A -> comparison) (P : A -> Prop),
+  (forall a b, P a -> P b -> leb cmp a b = true \/ leb cmp b a = true) ->
+  (forall a b c, P a -> P b -> P c -> leb cmp a b = true -> leb cmp b c = true -> leb cmp a c = true) ->
+  forall runs i, Forall P (concat runs) -> Forall (fun r => sortedb cmp r = true) runs ->
+  map fst (filter (fun e => Nat.eqb (snd e) i) (kmerge_tagged cmp runs)) = nth i runs nil.
+Proof. exact kway_merge_run_order_l. Qed.
+Print Assumptions kway_merge_run_order.
+
+(** = the sequential stable sort of the concatenation, outside the class of C17-K1 *)
+Theorem kway_merge_stable : forall (A : Type) (cmp : A -> A -> comparison) (P : A -> Prop),
+  (forall a b, P a -> P b -> leb cmp a b = true \/ leb cmp b a = true) ->
+  (forall a b c, P a -> P b -> P c -> leb cmp a b = true -> leb cmp b c = true -> leb cmp a c = true) ->
+  forall runs, Forall P (concat runs) -> Forall (fun r => sortedb cmp r = true) runs ->
+  k_cross_ties cmp runs = false ->
+  merge_sorted_runs cmp runs = isort cmp (concat runs).
+Proof. exact kway_merge_stable_l. Qed.
+Print Assumptions kway_merge_stable.
+
+(** C17-K1: with equal keys in different runs the merge is sorted but is not the stable sort *)
+Theorem kway_merge_stable_refuted : exists runs : list (list (Z * Z)),
+    let cmp := fun a b : Z * Z => Z.compare (fst a) (fst b) in
+    Forall (fun r => sortedb cmp r = true) runs /\
+    sortedb cmp (merge_sorted_runs cmp runs) = true /\
+    merge_sorted_runs cmp runs <> isort cmp (concat runs).
+Proof. exact kway_merge_stable_refuted_l. Qed.
+Print Assumptions kway_merge_stable_refuted.
+
+(** the code's comparators are total preorders on typed rows (premises [total]/[trans] above) *)
+Theorem cmp_rows_m_preorder : forall keys kinds,
+  (forall a b, typed_row keys kinds a = true -> typed_row keys kinds b = true ->
+     leb (cmp_rows_m keys) a b = true \/ leb (cmp_rows_m keys) b a = true)
+  /\ (forall a b c, typed_row keys kinds a = true -> typed_row keys kinds b = true -> typed_row keys kinds c = true ->
+     leb (cmp_rows_m keys) a b = true -> leb (cmp_rows_m keys) b c = true -> leb (cmp_rows_m keys) a c = true).
+Proof. intros keys kinds. split; [exact (cmp_rows_m_total_l keys kinds)|exact (cmp_rows_m_trans_l keys kinds)]. Qed.
+Print Assumptions cmp_rows_m_preorder.
+
+Theorem cmp_rows_s_preorder : forall keys kinds,
+  (forall a b, typed_row keys kinds a = true -> typed_row keys kinds b = true ->
+     leb (cmp_rows_s keys) a b = true \/ leb (cmp_rows_s keys) b a = true)
+  /\ (forall a b c, typed_row keys kinds a = true -> typed_row keys kinds b = true -> typed_row keys kinds c = true ->
+     leb (cmp_rows_s keys) a b = true -> leb (cmp_rows_s keys) b c = true -> leb (cmp_rows_s keys) a c = true)
+  /\ (forall a b, typed_row keys kinds a = true -> typed_row keys kinds b = true ->
+     cmp_rows_s keys a b = cmp_rows_m keys a b).
+Proof.
+  intros keys kinds. split; [exact (cmp_rows_s_total_l keys kinds)|split; [exact (cmp_rows_s_trans_l keys kinds)|exact (cmp_rows_s_m keys kinds)]].
+Qed.
+Print Assumptions cmp_rows_s_preorder.
+
+(** across value kinds the comparators answer Equal and are not transitive (why [typed_row] is needed) *)
+Theorem cmp_mixed_not_transitive : let keys := [{| k_col := 0; k_asc := true; k_nf := false |}] in
+  let a := [VInt 2] in let b := [VStr 0] in let c := [VInt 1] in
+  leb (cmp_rows_m keys) a b = true /\ leb (cmp_rows_m keys) b c = true /\ leb (cmp_rows_m keys) a c = false.
+Proof. exact cmp_mixed_not_transitive_l. Qed.
+Print Assumptions cmp_mixed_not_transitive.
+
+(** rows_to_chunks / chunks_to_rows *)
+Theorem chunks_rows_inverse : forall (X : Type) (rows : list X) (csize : nat),
+  ((0 < csize)%nat -> exists cs, rows_to_chunks rows csize = Some cs /\ chunks_to_rows cs = rows
+                           /\ Forall (fun c => c <> [] /\ (length c <= csize)%nat) cs)
+  /\ (csize = 0%nat -> rows <> [] -> rows_to_chunks rows csize = None)
+  /\ rows_to_chunks (@nil X) csize = Some [].
+Proof. intros X rows csize. exact (chunks_rows_inverse_l rows csize). Qed.
+Print Assumptions chunks_rows_inverse.
+
+(** ** 2. morsels *)
+
+Theorem morsels_partition : forall total size src, (0 < total)%Z -> (0 < size)%Z -> (total + size < 2 ^ 64)%Z ->
+  exists ms, generate_morsels total size src = Some ms
+    /\ chain size ms 0%Z total
+    /\ ms <> nil
+    /\ map m_id ms = map Z.of_nat (seq 0 (length ms))
+    /\ Forall (fun m => m_src m = src) ms.
+Proof. exact morsels_partition_l. Qed.
+Print Assumptions morsels_partition.
+
+Theorem morsels_degenerate : forall total size src,
+  generate_morsels 0%Z size src = Some nil /\ generate_morsels total 0%Z src = Some nil
+  /\ ((0 < total)%Z -> (0 < size)%Z -> (2 ^ 64 <= total + size)%Z -> generate_morsels total size src = None).
+Proof. exact morsels_degenerate_l. Qed.
+Print Assumptions morsels_degenerate.
+
+Theorem morsels_cover_rows : forall (A : Type) (xs : list A) size src,
+  (0 < size)%Z -> (Z.of_nat (length xs) + size < 2 ^ 64)%Z ->
+  exists ms, generate_morsels (Z.of_nat (length xs)) size src = Some ms /\ concat (map (slice xs) ms) = xs.
+Proof. intros A xs size src. exact (morsels_cover_rows_l xs size src). Qed.
+Print Assumptions morsels_cover_rows.
+
+(** ** 3. partial aggregates *)
+
+Theorem accum_homomorphism : forall xs ys, uniformb (xs ++ ys) = true ->
+  fold_add (xs ++ ys) acc0 = merge (fold_add xs acc0) (fold_add ys acc0).
+Proof. exact accum_homomorphism_l. Qed.
+Print Assumptions accum_homomorphism.
+
+(** any partition into morsels and any merge tree *)
+Theorem accum_merge_tree : forall t, uniformb (flatten t) = true -> eval t = fold_add (flatten t) acc0.
+Proof. exact accum_merge_tree_l. Qed.
+Print Assumptions accum_merge_tree.
+
+(** C17-K2: a column mixing kinds *)
+Theorem accum_homomorphism_refuted : exists xs ys,
+  finalize_min (fold_add (xs ++ ys) acc0) <> finalize_min (merge (fold_add xs acc0) (fold_add ys acc0)).
+Proof. exact accum_refuted_l. Qed.
+Print Assumptions accum_homomorphism_refuted.
+
+(** merging in either order (worker completion order) *)
+Theorem accum_merge_comm : forall xs ys, uniformb (xs ++ ys) = true ->
+  (forall v, In v (xs ++ ys) -> kind v <> 1%nat) ->
+  let a := fold_add xs acc0 in let b := fold_add ys acc0 in
+  a_count (merge a b) = a_count (merge b a) /\ a_sum (merge a b) = a_sum (merge b a)
+  /\ a_min (merge a b) = a_min (merge b a) /\ a_max (merge a b) = a_max (merge b a).
+Proof. exact accum_merge_comm_b. Qed.
+Print Assumptions accum_merge_comm.
+
+(** ** 4. push operators = list specification (= the pull twins' specification), any chunking *)
+
+Theorem push_equals_pull : forall (R K : Type) (keq : K -> K -> bool) (k : @opk R K) (cs : list (list R)),
+  concat (run1 keq k cs) = spec keq k (concat cs).
+Proof. intros R K keq. exact (push_equals_pull_l keq). Qed.
+Print Assumptions push_equals_pull.
+
+Theorem chain2_streaming_ok : forall (R K : Type) (keq : K -> K -> bool) (k1 k2 : @opk R K) (cs : list (list R)),
+  streaming k1 = true ->
+  concat (run_chain keq [k1; k2] cs) = spec keq k2 (spec keq k1 (concat cs)).
+Proof. intros R K keq. exact (chain2_streaming_ok_l keq). Qed.
+Print Assumptions chain2_streaming_ok.
+
+(** C17-K5: an inner LIMIT loses its last chunk *)
+Theorem pipeline_chain_refuted : exists (ks : list (@opk nat unit)) (rows : list nat),
+    let keq := fun _ _ : unit => true in
+    k_inner_limit_hit ks (length rows) = true /\
+    exists out, pipeline_run keq ks rows = PRows out /\ concat out <> chain_spec keq ks rows.
+Proof. exact pipeline_chain_refuted_l. Qed.
+Print Assumptions pipeline_chain_refuted.
+
+(** C17-K7: LIMIT 0 behind another operator: chunk size hint 0, the run never ends *)
+Theorem pipeline_limit0_diverges : forall (R K : Type) (keq : K -> K -> bool) (p : R -> bool) (r0 : R) (rows : list R),
+  pipeline_run keq [OFilter p; OLimit 0] (r0 :: rows) = PDiverge.
+Proof. intros R K keq. exact (pipeline_limit0_diverges_l keq). Qed.
+Print Assumptions pipeline_limit0_diverges.
+
+(** ** 5. schedules: any assignment of morsels to any number of workers, any order *)
+
+Theorem schedule_perm : forall (Y : Type) (f : nat -> list Y) (nm : nat) (sch : schedule),
+  valid_schedule nm sch ->
+  Permutation (concat (map (fun w => concat (map f w)) sch)) (concat (map f (seq 0 nm))).
+Proof. intros Y. exact (@schedule_perm_l Y). Qed.
+Print Assumptions schedule_perm.
+
+Theorem schedule_independent : forall (R K : Type) (keq : K -> K -> bool) (ks : list (@opk R K)),
+  forallb stateless_op ks = true ->
+  forall csize (rows : list R) ms sch, (0 < csize)%nat ->
+  concat (map (slice rows) ms) = rows ->
+  valid_schedule (length ms) sch ->
+  Permutation (concat (parallel_run keq ks csize rows ms sch)) (chain_spec keq ks rows).
+Proof. intros R K keq. exact (schedule_independent_l keq). Qed.
+Print Assumptions schedule_independent.
+
+Theorem sequential_run_spec : forall (R K : Type) (keq : K -> K -> bool) (ks : list (@opk R K)),
+  forallb stateless_op ks = true ->
+  forall csize (rows : list R) ms, (0 < csize)%nat -> concat (map (slice rows) ms) = rows ->
+  concat (sequential_run keq ks csize rows ms) = chain_spec keq ks rows.
+Proof. intros R K keq. exact (sequential_run_spec_l keq). Qed.
+Print Assumptions sequential_run_spec.
+
+(** per-worker sort + k-way merge of the workers' runs *)
+Theorem schedule_sort : forall (R K : Type) (keq : K -> K -> bool) (cmp : R -> R -> comparison) (P : R -> Prop),
+  (forall a b, P a -> P b -> leb cmp a b = true \/ leb cmp b a = true) ->
+  (forall a b c, P a -> P b -> P c -> leb cmp a b = true -> leb cmp b c = true -> leb cmp a c = true) ->
+  forall csize (rows : list R) ms sch, (0 < csize)%nat -> Forall P rows ->
+  concat (map (slice rows) ms) = rows -> valid_schedule (length ms) sch ->
+  let parts := parallel_run keq [@OSort R K cmp] csize rows ms sch in
+  StronglySorted (fun a b => leb cmp a b = true) (merge_sorted_runs cmp parts)
+  /\ Permutation (merge_sorted_runs cmp parts) rows.
+Proof. intros R K keq cmp P Ht Hr. exact (schedule_sort_l keq cmp P Ht Hr). Qed.
+Print Assumptions schedule_sort.
+
+(** ** 6. external sort: every memory budget *)
+
+Theorem merge_all_spec : forall (A : Type) (cmp : A -> A -> comparison) (P : A -> Prop),
+  (forall a b, P a -> P b -> leb cmp a b = true \/ leb cmp b a = true) ->
+  (forall a b c, P a -> P b -> P c -> leb cmp a b = true -> leb cmp b c = true -> leb cmp a c = true) ->
+  forall runs mem, Forall P (concat runs ++ mem) -> Forall (fun r => sortedb cmp r = true) runs ->
+  StronglySorted (fun a b => leb cmp a b = true) (merge_all cmp runs mem)
+  /\ Permutation (merge_all cmp runs mem) (concat runs ++ mem)
+  /\ (k_cross_ties cmp (runs ++ [mem]) = false -> merge_all cmp runs mem = isort cmp (concat runs ++ mem)).
+Proof. intros A cmp P Ht Hr. exact (merge_all_spec_b cmp P Ht Hr). Qed.
+Print Assumptions merge_all_spec.
+
+(** every way of cutting the input into sorted runs + an in-memory rest *)
+Theorem external_sort_spec : forall (A : Type) (cmp : A -> A -> comparison) (P : A -> Prop),
+  (forall a b, P a -> P b -> leb cmp a b = true \/ leb cmp b a = true) ->
+  (forall a b c, P a -> P b -> P c -> leb cmp a b = true -> leb cmp b c = true -> leb cmp a c = true) ->
+  forall pieces mem, Forall P (concat pieces ++ mem) ->
+  StronglySorted (fun a b => leb cmp a b = true) (merge_all cmp (map (isort cmp) pieces) mem)
+  /\ Permutation (merge_all cmp (map (isort cmp) pieces) mem) (concat pieces ++ mem)
+  /\ (k_cross_ties cmp (map (isort cmp) pieces ++ [mem]) = false ->
+      merge_all cmp (map (isort cmp) pieces) mem = isort cmp (concat pieces ++ mem)).
+Proof. intros A cmp P Ht Hr. exact (external_sort_spec_b cmp P Ht Hr). Qed.
+Print Assumptions external_sort_spec.
+
+(** SpillableSortPushOperator: any chunking, any spill threshold *)
+Theorem spill_sort_spec : forall (A : Type) (cmp : A -> A -> comparison) (P : A -> Prop),
+  (forall a b, P a -> P b -> leb cmp a b = true \/ leb cmp b a = true) ->
+  (forall a b c, P a -> P b -> P c -> leb cmp a b = true -> leb cmp b c = true -> leb cmp a c = true) ->
+  forall threshold cs, Forall P (concat cs) ->
+  StronglySorted (fun a b => leb cmp a b = true) (spill_sort cmp threshold cs)
+  /\ Permutation (spill_sort cmp threshold cs) (concat cs)
+  /\ (k_cross_ties cmp (spill_runs cmp threshold cs) = false -> spill_sort cmp threshold cs = isort cmp (concat cs)).
+Proof. intros A cmp P Ht Hr. exact (spill_sort_spec_b cmp P Ht Hr). Qed.
+Print Assumptions spill_sort_spec.
+
+(** C17-K1 for the external sort *)
+Theorem external_sort_refuted : exists (threshold : nat) (cs : list (list (Z * Z))),
+  let cmp := fun a b : Z * Z => Z.compare (fst a) (fst b) in
+  spill_sort cmp threshold cs <> isort cmp (concat cs)
+  /\ sortedb cmp (spill_sort cmp threshold cs) = true
+  /\ k_cross_ties cmp (spill_runs cmp threshold cs) = true.
+Proof. exact external_sort_refuted_l. Qed.
+Print Assumptions external_sort_refuted.
+
+(** ** 7. hash partitions and spill files *)
+
+Theorem partition_union : forall (Key V : Type) (hash : Key -> Z) (n : nat) (rows : list (Key * V)),
+  (0 < n)%nat ->
+  Permutation (concat (partition_rows hash n rows)) rows
+  /\ (forall k1 k2, hash k1 = hash k2 -> part_of hash n k1 = part_of hash n k2)
+  /\ (forall k, (part_of hash n k < n)%nat).
+Proof. exact partition_union_l. Qed.
+Print Assumptions partition_union.
+
+Theorem spill_files_sort : forall s i, In i (f_sort s) -> ~ In i (g_disk (f_mgr (fstep s FSortDrop))).
+Proof. exact spill_files_sort_l. Qed.
+Print Assumptions spill_files_sort.
+
+Theorem spill_files_drain : forall s i, In i (f_part s) -> ~ In i (g_disk (f_mgr (fstep s FPartDrain))).
+Proof. exact spill_files_drain_l. Qed.
+Print Assumptions spill_files_drain.
+
+Theorem spill_files_manager : forall ops, g_disk (f_mgr (frun (ops ++ [FMgrCleanup]))) = [].
+Proof. exact spill_files_manager_l. Qed.
+Print Assumptions spill_files_manager.
+
+(** C17-K6: PartitionedState::cleanup / drop leaves the files of spilled partitions on disk *)
+Theorem spill_files_refuted : exists ops,
+  k_part_cleanup_leaves fstate0 ops = true /\ f_sort (frun ops) = [] /\ f_part (frun ops) = []
+  /\ disk_count (frun ops) = 1%nat.
+Proof. exact spill_files_refuted_l. Qed.
+Print Assumptions spill_files_refuted.
+
+(** ** non-vacuity of the hypotheses *)
+
+Example typed_rows_exist :
+  let keys := [{| k_col := 0; k_asc := true; k_nf := false |}; {| k_col := 2; k_asc := false; k_nf := true |}] in
+  let kinds := [2; 2; 4]%nat in
+  typed_row keys kinds [VInt 3; VInt 0; VStr 7] = true /\ typed_row keys kinds [VNull; VInt 1; VNull] = true
+  /\ cmp_rows_m keys [VInt 3; VInt 0; VStr 7] [VNull; VInt 1; VNull] = Lt.
+Proof. cbn. auto. Qed.
+
+Example sorted_runs_exist :
+  let cmp := fun a b : Z * Z => Z.compare (fst a) (fst b) in
+  let runs := [[(1, 0); (3, 1)]; [(2, 2); (4, 3)]]%Z in
+  Forall (fun r => sortedb cmp r = true) runs /\ k_cross_ties cmp runs = false
+  /\ merge_sorted_runs cmp runs = [(1, 0); (2, 2); (3, 1); (4, 3)]%Z.
+Proof. cbn. repeat split; repeat constructor. Qed.
+
+Example uniform_column_exists : uniformb [VInt 3; VNull; VInt 1] = true /\ uniformb [VInt 1; VFlt 0] = false.
+Proof. cbn. auto. Qed.
+
+Example valid_schedule_exists : valid_schedule 3 [[2]; []; [0; 1]]%nat.
+Proof.
+  unfold valid_schedule. cbn. change (Permutation (2 :: [0; 1]) ([0; 1] ++ 2 :: []))%nat.
+  apply Permutation_cons_app. cbn. apply Permutation_refl.
+Qed.
+
+Example stateless_chain_exists :
+  forallb stateless_op [@OFilter nat unit (fun n => Nat.leb 2 n); OProject (fun n => (n + 1)%nat)] = true
+  /\ chain_spec (fun _ _ : unit => true) [@OFilter nat unit (fun n => Nat.leb 2 n); OProject (fun n => (n + 1)%nat)] [1; 2; 3]%nat = [3; 4]%nat.
+Proof. cbn. auto. Qed.
+
+Example morsels_exist : exists ms, generate_morsels 2049 1024 0 = Some ms /\ length ms = 3%nat.
+Proof. eexists. split; [vm_compute; reflexivity|reflexivity]. Qed.
